@@ -95,7 +95,7 @@ func mustDeref(t types.Type) types.Type {
 
 func isEnginePanic(p interface{}) bool {
 	switch p.(type) {
-	case pathEnd, unsupported:
+	case pathEnd, unsupported, stopSpawn, crashSignal:
 		return true
 	case *runtime.TypeAssertionError:
 		return true
